@@ -35,6 +35,7 @@ var (
 	c06ops      = core.RegCounter("c06.logged_operations")
 	c06kinds    = core.RegCounter("c06.operation_kinds_per_run_summed")
 	c06panics   = core.RegCounter("c06.family_panics")
+	c06fPool    = core.RegCounter("c06.family.operand_pools")
 	c06fScalar  = core.RegCounter("c06.family.scalar")
 	c06fRecode  = core.RegCounter("c06.family.scalar_recoding")
 	c06fEd      = core.RegCounter("c06.family.edwards_group")
@@ -70,7 +71,7 @@ func init() {
 		Property: "C06",
 		Phase:    "API tour replayed on every backend",
 		Variants: []string{"plain", "noavx2", "purego", "force32bit"},
-		Rule: "per run: one tape-determined tour over 19 operation families of curve/scalar, curve (Edwards, Montgomery, Ristretto, expanded points, user-built tables), x25519, ed25519 (+batch, expanded keys), ecvrf, h2c, merlin and sr25519, executed in a tape-shuffled order; " +
+		Rule: "per run: one tape-determined tour over 18 operation families (plus the operand pools) of curve/scalar, curve (Edwards, Montgomery, Ristretto, expanded points, user-built tables), x25519, ed25519 (+batch, expanded keys), ecvrf, h2c, merlin and sr25519, executed in a tape-shuffled order; " +
 			"operands are drawn from the tape as a mix of random values and boundary values: scalars {0, 1, L-1, L, L+1, kL+j, 2^252, 2^255-1, 2^k, 2^k-1, byte runs of 0x00/0xff, random reduced, random unreduced 255-bit via SetBits}, points {identity, basepoint, the 8-torsion points, basepoint multiples plus torsion, decoded random strings, sums of those}, encodings {random strings, y>=p and x=0 non-canonical forms, limb-pattern y values}, multiscalar lengths from {0,1,2,3,7,8,31,32,63,64,189,190,191,250} and rarely {500,800}, batch sizes 1..8 and occasionally ~100/~195, message/label/DST lengths at hash-block, STROBE-rate (166/332) and 255/256 seams; every entropy reader is a deterministic reader with a tape-drawn seed; " +
 			"every operation appends one event carrying a digest of its canonical output (encoded bytes, booleans, err!=nil; a recovered panic only as 'family X: panic'); non-trivial = every run (each run executes every family at least once, i.e. >= 40 distinct operation kinds; the count is asserted); " +
 			"oracle: the SHA-256 of the run's event log must be equal, index by index, across the four builds {amd64 asm + AVX2, amd64 asm with GODEBUG=cpu.avx2=off, -tags purego, -tags force32bit}; the workload itself never reports a violation",
@@ -120,7 +121,7 @@ func (c *c06) rd() *DetReader { return NewDetReader(uint64(c.t.W(1<<30)) + 1) }
 
 func runC06(e *Env, r *core.Run) {
 	c := &c06{e: e, r: r, t: r.T, g: &Gen{T: r.T}, kinds: map[string]struct{}{}}
-	c.fam("pool", c06fEd, c.buildPools)
+	c.fam("pool", c06fPool, c.buildPools)
 	type fam struct {
 		name string
 		ctr  int
@@ -171,9 +172,9 @@ func c06sb(s *scalar.Scalar) []byte {
 	return b
 }
 
-func c06hs(s *scalar.Scalar) string          { return core.Hex8(c06sb(s)) }
-func c06he(p *curve.EdwardsPoint) string     { return core.Hex8(edBytes(p)) }
-func c06hr(p *curve.RistrettoPoint) string   { return core.Hex8(risBytes(p)) }
+func c06hs(s *scalar.Scalar) string        { return core.Hex8(c06sb(s)) }
+func c06he(p *curve.EdwardsPoint) string   { return core.Hex8(edBytes(p)) }
+func c06hr(p *curve.RistrettoPoint) string { return core.Hex8(risBytes(p)) }
 func c06i8(d []int8) string {
 	b := make([]byte, len(d))
 	for i, v := range d {
@@ -419,18 +420,6 @@ func (c *c06) risMany(n int) []*curve.RistrettoPoint {
 	return out
 }
 
-// silence unused imports until every family is in place
-var (
-	_ = crypto.SHA512
-	_ = sha512.New
-	_ = sha3.NewShake128
-	_ = ecvrf.Prove
-	_ = h2c.ExpandMessageXMD
-	_ = merlin.NewTranscript
-	_ = sr25519.NewSigningContext
-	_ = x25519.Basepoint
-)
-
 // ---- curve/scalar ----------------------------------------------------------------
 
 func (c *c06) famScalar() {
@@ -578,4 +567,1126 @@ func (c *c06) famRecode() {
 	w := uint(2 + t.W(7))
 	naf := s2.NonAdjacentForm(w)
 	c.op(fmt.Sprintf("scalar.NonAdjacentForm(%d)", w), "%s -> %s", c06hs(s2), c06i8(naf[:]))
+}
+
+// ---- curve: Edwards ---------------------------------------------------------------
+
+func (c *c06) famEdwards() {
+	t := c.t
+	a, b := c.ed(), c.ed()
+	ha, hb := c06he(a), c06he(b)
+	var o curve.EdwardsPoint
+	c.op("edwards.Add", "%s %s -> %s", ha, hb, c06he(o.Add(a, b)))
+	c.op("edwards.Sub", "%s %s -> %s", ha, hb, c06he(o.Sub(a, b)))
+	c.op("edwards.Neg", "%s -> %s", ha, c06he(o.Neg(a)))
+	c.op("edwards.double", "%s -> %s", ha, c06he(o.Add(a, a)))
+	c.op("edwards.MulByCofactor", "%s -> %s", ha, c06he(o.MulByCofactor(a)))
+	c.op("edwards.IsSmallOrder", "%s -> %v", ha, a.IsSmallOrder())
+	c.op("edwards.IsTorsionFree", "%s -> %v", ha, a.IsTorsionFree())
+	c.op("edwards.IsIdentity", "%s -> %v sub-self=%v", ha, a.IsIdentity(), o.Sub(a, a).IsIdentity())
+	// Equal: against the other operand and against a differently-scaled representative
+	var a2 curve.EdwardsPoint
+	a2.Add(a, b)
+	a2.Sub(&a2, b)
+	c.op("edwards.Equal", "%s %s -> %d roundtrip=%d", ha, hb, a.Equal(b), a.Equal(&a2))
+	vs := make([]*curve.EdwardsPoint, t.W(7))
+	for i := range vs {
+		vs[i] = c.ed()
+	}
+	c.op("edwards.Sum", "n=%d -> %s", len(vs), c06he(o.Sum(vs)))
+	ch := t.W(2)
+	o.ConditionalSelect(a, b, ch)
+	c.op("edwards.ConditionalSelect", "%d -> %s", ch, c06he(&o))
+	// aliasing: receiver is an operand
+	x := curve.NewEdwardsPoint().Set(a)
+	x.Add(x, b)
+	y := curve.NewEdwardsPoint().Set(b)
+	y.Sub(a, y)
+	z := curve.NewEdwardsPoint().Set(a)
+	z.Neg(z)
+	c.op("edwards.aliased", "add=%s sub=%s neg=%s", c06he(x), c06he(y), c06he(z))
+	mb, err := a.MarshalBinary()
+	var u curve.EdwardsPoint
+	uerr := u.UnmarshalBinary(mb)
+	c.op("edwards.MarshalBinary", "%s err=%v back err=%v %s", core.Hex8(mb), err != nil, uerr != nil, c06he(&u))
+	// a chain of group operations (representatives with large Z)
+	acc := curve.NewEdwardsPoint().Set(a)
+	for i, m := 0, 1+t.W(12); i < m; i++ {
+		switch t.W(4) {
+		case 0:
+			acc.Add(acc, acc)
+		case 1:
+			acc.Sub(acc, c.ed())
+		case 2:
+			acc.MulByCofactor(acc)
+		default:
+			acc.Add(acc, c.ed())
+		}
+	}
+	c.op("edwards.chain", "-> %s", c06he(acc))
+}
+
+func (c *c06) famEdMul() {
+	t := c.t
+	a, b := c.ed(), c.ed()
+	s, u := c.sc(), c.sc()
+	ha, hs, hu := c06he(a), c06hs(s), c06hs(u)
+	var o curve.EdwardsPoint
+	c.op("edwards.Mul", "%s * %s -> %s", hs, ha, c06he(o.Mul(a, s)))
+	c.op("edwards.MulBasepoint(package table)", "%s -> %s", hs, c06he(o.MulBasepoint(curve.ED25519_BASEPOINT_TABLE, s)))
+	c.op("edwards.BasepointTable.Basepoint", "-> %s", c06he(curve.ED25519_BASEPOINT_TABLE.Basepoint()))
+	tbl := curve.NewEdwardsBasepointTable(a)
+	c.op("edwards.NewEdwardsBasepointTable", "%s -> basepoint %s", ha, c06he(tbl.Basepoint()))
+	c.op("edwards.MulBasepoint(user table)", "%s * %s -> %s", hs, ha, c06he(o.MulBasepoint(tbl, s)))
+	if t.W(2) == 1 {
+		c.op("edwards.MulBasepoint(user table)", "%s * %s -> %s", hu, ha, c06he(o.MulBasepoint(tbl, u)))
+	}
+	c.op("edwards.DoubleScalarMulBasepointVartime", "%s %s %s -> %s", hs, ha, hu, c06he(o.DoubleScalarMulBasepointVartime(s, a, u)))
+	c.op("edwards.TripleScalarMulBasepointVartime", "%s %s %s %s -> %s", hs, ha, hu, c06he(b), c06he(o.TripleScalarMulBasepointVartime(s, a, u, b)))
+	// the verification shape: C = sA + uB, the result must be the identity on every backend
+	var C curve.EdwardsPoint
+	C.DoubleScalarMulBasepointVartime(s, a, u)
+	o.TripleScalarMulBasepointVartime(s, a, u, &C)
+	c.op("edwards.TripleScalarMulBasepointVartime(balanced)", "-> %s identity=%v", c06he(&o), o.IsIdentity())
+	// aliased receiver
+	x := curve.NewEdwardsPoint().Set(a)
+	x.Mul(x, u)
+	c.op("edwards.Mul(aliased)", "%s * %s -> %s", hu, ha, c06he(x))
+	for i, m := 0, t.W(3); i < m; i++ {
+		p, k := c.ed(), c.sc()
+		c.op("edwards.Mul", "%s * %s -> %s", c06hs(k), c06he(p), c06he(o.Mul(p, k)))
+	}
+}
+
+func (c *c06) famEdMSM() {
+	t := c.t
+	var o curve.EdwardsPoint
+	n := c.msmLen()
+	c.noteLen(n)
+	ss, ps := c.scs(n), c.edMany(n)
+	c.op("edwards.MultiscalarMulVartime", "n=%d -> %s", n, c06he(o.MultiscalarMulVartime(ss, ps)))
+	// constant-time Straus: same operands when short, else a fresh short set
+	if n > 64 && t.W(4) != 3 {
+		n = c06lenSmall[t.W(len(c06lenSmall))]
+		ss, ps = ss[:n], ps[:n]
+	}
+	c.op("edwards.MultiscalarMul", "n=%d -> %s", n, c06he(o.MultiscalarMul(ss, ps)))
+	// always: one tiny and the empty product
+	k := 1 + t.W(3)
+	ss, ps = c.scs(k), c.edMany(k)
+	c.op("edwards.MultiscalarMulVartime", "n=%d -> %s", k, c06he(o.MultiscalarMulVartime(ss, ps)))
+	c.op("edwards.MultiscalarMul", "n=%d -> %s", k, c06he(o.MultiscalarMul(ss, ps)))
+	c.op("edwards.MultiscalarMul(empty)", "-> %s %s", c06he(o.MultiscalarMul(nil, nil)), c06he(curve.NewEdwardsPoint().MultiscalarMulVartime(nil, nil)))
+}
+
+func (c *c06) famEdExpanded() {
+	t := c.t
+	a, b := c.ed(), c.ed()
+	s, u := c.sc(), c.sc()
+	ha, hs, hu := c06he(a), c06hs(s), c06hs(u)
+	ea := curve.NewExpandedEdwardsPoint(a)
+	var o curve.EdwardsPoint
+	c.op("edwards.NewExpandedEdwardsPoint", "%s -> point %s set %s", ha, c06he(ea.Point()), c06he(o.SetExpanded(ea)))
+	c.op("edwards.ExpandedDoubleScalarMulBasepointVartime", "%s %s %s -> %s", hs, ha, hu, c06he(o.ExpandedDoubleScalarMulBasepointVartime(s, ea, u)))
+	c.op("edwards.ExpandedTripleScalarMulBasepointVartime", "%s %s %s %s -> %s", hs, ha, hu, c06he(b), c06he(o.ExpandedTripleScalarMulBasepointVartime(s, ea, u, b)))
+	var C curve.EdwardsPoint
+	C.ExpandedDoubleScalarMulBasepointVartime(s, ea, u)
+	o.ExpandedTripleScalarMulBasepointVartime(s, ea, u, &C)
+	c.op("edwards.ExpandedTripleScalarMulBasepointVartime(balanced)", "-> %s identity=%v", c06he(&o), o.IsIdentity())
+	var re curve.ExpandedEdwardsPoint
+	re.SetEdwardsPoint(b)
+	c.op("edwards.ExpandedEdwardsPoint.SetEdwardsPoint", "%s -> %s", c06he(b), c06he(re.Point()))
+	// mixed static/dynamic multiscalar; the total crosses the Straus/Pippenger threshold occasionally
+	n := c.msmLen()
+	c.noteLen(n)
+	ns := 0
+	switch t.W(4) {
+	case 0:
+		ns = n / 2
+	case 1:
+		ns = n
+	case 2:
+		ns = t.W(n + 1)
+	}
+	// a few distinct expanded points, re-used
+	distinct := []*curve.ExpandedEdwardsPoint{ea, &re}
+	for i, m := 0, t.W(4); i < m; i++ {
+		distinct = append(distinct, curve.NewExpandedEdwardsPoint(c.ed()))
+	}
+	sp := make([]*curve.ExpandedEdwardsPoint, ns)
+	for i := range sp {
+		sp[i] = distinct[t.W(len(distinct))]
+	}
+	ss, ds, dp := c.scs(ns), c.scs(n-ns), c.edMany(n-ns)
+	c.op("edwards.ExpandedMultiscalarMulVartime", "static=%d dynamic=%d -> %s", ns, n-ns, c06he(o.ExpandedMultiscalarMulVartime(ss, sp, ds, dp)))
+	// always: a tiny mixed one and the empty one
+	c.op("edwards.ExpandedMultiscalarMulVartime", "static=1 dynamic=1 -> %s", c06he(o.ExpandedMultiscalarMulVartime([]*scalar.Scalar{s}, []*curve.ExpandedEdwardsPoint{ea}, []*scalar.Scalar{u}, []*curve.EdwardsPoint{b})))
+	c.op("edwards.ExpandedMultiscalarMulVartime(empty)", "-> %s", c06he(o.ExpandedMultiscalarMulVartime(nil, nil, nil, nil)))
+}
+
+// c06yPattern draws a 32-byte string to be decoded as a point / field element:
+// random, non-canonical (y >= p, or x = 0 with the sign bit), or a limb pattern.
+func (c *c06) yPattern() ([]byte, string) {
+	t := c.t
+	b := make([]byte, 32)
+	switch t.W(8) {
+	case 0, 7:
+		return c.g.Bytes(32), "random"
+	case 1:
+		if len(nonCanonicalPoints) > 0 {
+			return clone(nonCanonicalPoints[t.W(len(nonCanonicalPoints))]), "non-canonical"
+		}
+		return c.g.Bytes(32), "random"
+	case 2: // p + k, k in 0..18, either sign: every y >= p
+		copy(b, leBytes32(fieldP))
+		b[0] += byte(t.W(19))
+		b[31] |= byte(t.W(2)) << 7
+		return b, "y>=p"
+	case 3: // p - 1 - k
+		copy(b, leBytes32(fieldP))
+		b[0] -= byte(1 + t.W(200))
+		b[31] |= byte(t.W(2)) << 7
+		return b, "p-k"
+	case 4: // small y
+		b[0] = byte(t.W(256))
+		b[31] |= byte(t.W(2)) << 7
+		return b, "small"
+	case 5: // 2^k or 2^k-1
+		k := 1 + t.W(254)
+		if t.W(2) == 0 {
+			b[k/8] = 1 << uint(k%8)
+		} else {
+			for i := 0; i < k; i++ {
+				b[i/8] |= 1 << uint(i%8)
+			}
+		}
+		b[31] |= byte(t.W(2)) << 7
+		return b, "pow2"
+	default: // random with a run of 0x00 / 0xff
+		copy(b, c.g.Bytes(32))
+		lo := t.W(32)
+		n := 1 + t.W(32-lo)
+		v := byte(0xff * t.W(2))
+		for i := lo; i < lo+n; i++ {
+			b[i] = v
+		}
+		return b, "byte-run"
+	}
+}
+
+func (c *c06) famEdCodec() {
+	t := c.t
+	a := c.ed()
+	var cy curve.CompressedEdwardsY
+	cy.SetEdwardsPoint(a)
+	c.op("edwards.Compress", "-> %s canonical=%v", core.Hex8(cy[:]), cy.IsCanonicalVartime())
+	var back curve.EdwardsPoint
+	_, err := back.SetCompressedY(&cy)
+	c.op("edwards.Decompress(own encoding)", "err=%v equal=%d", err != nil, back.Equal(a))
+	var id curve.CompressedEdwardsY
+	id.Identity()
+	c.op("edwards.CompressedEdwardsY.Equal", "%d %d base=%s", cy.Equal(&id), cy.Equal(&cy), core.Hex8(curve.ED25519_BASEPOINT_COMPRESSED[:]))
+	for i, m := 0, 3+t.W(6); i < m; i++ {
+		b, tag := c.yPattern()
+		c2, err := curve.NewCompressedEdwardsYFromBytes(b)
+		if err != nil {
+			c.op("edwards.Decompress", "%s %s -> bad length", tag, core.Hex8(b))
+			continue
+		}
+		var p curve.EdwardsPoint
+		_, err = p.SetCompressedY(c2)
+		if err != nil {
+			c.r.Count(c06decRej)
+			c.op("edwards.Decompress", "%s %s -> err=true canonical=%v", tag, core.Hex8(b), c2.IsCanonicalVartime())
+			continue
+		}
+		c.r.Count(c06decOK)
+		c.op("edwards.Decompress", "%s %s -> err=false re=%s canonical=%v small=%v torsionfree=%v", tag, core.Hex8(b), c06he(&p), c2.IsCanonicalVartime(), p.IsSmallOrder(), p.IsTorsionFree())
+		var q curve.EdwardsPoint
+		uerr := q.UnmarshalBinary(b)
+		c.op("edwards.UnmarshalBinary", "%s -> err=%v %s", core.Hex8(b), uerr != nil, c06he(&q))
+	}
+}
+
+func (c *c06) famMontgomery() {
+	t := c.t
+	a := c.ed()
+	s := c.sc()
+	var m, m2 curve.MontgomeryPoint
+	m.SetEdwards(a)
+	c.op("montgomery.SetEdwards", "%s -> %s", c06he(a), core.Hex8(m[:]))
+	m2.Mul(&m, s)
+	c.op("montgomery.Mul", "%s * %s -> %s", c06hs(s), core.Hex8(m[:]), core.Hex8(m2[:]))
+	// must agree with the Edwards ladder on every backend (logged, not judged)
+	var es curve.EdwardsPoint
+	es.Mul(a, s)
+	var m3 curve.MontgomeryPoint
+	m3.SetEdwards(&es)
+	c.op("montgomery.Equal", "%d %d", m2.Equal(&m3), m2.Equal(&m))
+	for sign := uint8(0); sign < 2; sign++ {
+		var p curve.EdwardsPoint
+		_, err := p.SetMontgomery(&m, sign)
+		if err != nil {
+			c.op("edwards.SetMontgomery", "%s sign=%d -> err=true", core.Hex8(m[:]), sign)
+		} else {
+			c.op("edwards.SetMontgomery", "%s sign=%d -> err=false %s", core.Hex8(m[:]), sign, c06he(&p))
+		}
+	}
+	// arbitrary u-coordinates: on the twist, u = -1, non-canonical u
+	for i, n := 0, 2+t.W(4); i < n; i++ {
+		b, tag := c.yPattern()
+		if t.W(8) == 7 {
+			copy(b, leBytes32(fieldP))
+			b[0]-- // u = -1
+			tag = "u=-1"
+		}
+		var u, r curve.MontgomeryPoint
+		if _, err := u.SetBytes(b); err != nil {
+			continue
+		}
+		k := c.sc()
+		r.Mul(&u, k)
+		var p curve.EdwardsPoint
+		sign := uint8(t.W(2))
+		_, err := p.SetMontgomery(&u, sign)
+		re := "-"
+		if err == nil {
+			re = c06he(&p)
+		}
+		c.op("montgomery.Mul(arbitrary u)", "%s %s * %s -> %s; SetMontgomery sign=%d err=%v %s", tag, c06hs(k), core.Hex8(b), core.Hex8(r[:]), sign, err != nil, re)
+	}
+	c.op("montgomery.X25519_BASEPOINT", "%s", core.Hex8(curve.X25519_BASEPOINT[:]))
+}
+
+// ---- curve: Ristretto -------------------------------------------------------------
+
+func (c *c06) famRistretto() {
+	t := c.t
+	a, b := c.ris(), c.ris()
+	s, u := c.sc(), c.sc()
+	ha, hb, hs, hu := c06hr(a), c06hr(b), c06hs(s), c06hs(u)
+	var o curve.RistrettoPoint
+	c.op("ristretto.Add", "%s %s -> %s", ha, hb, c06hr(o.Add(a, b)))
+	c.op("ristretto.Sub", "%s %s -> %s", ha, hb, c06hr(o.Sub(a, b)))
+	c.op("ristretto.Neg", "%s -> %s", ha, c06hr(o.Neg(a)))
+	c.op("ristretto.Mul", "%s * %s -> %s", hs, ha, c06hr(o.Mul(a, s)))
+	c.op("ristretto.MulBasepoint(package table)", "%s -> %s", hs, c06hr(o.MulBasepoint(curve.RISTRETTO_BASEPOINT_TABLE, s)))
+	c.op("ristretto.Equal", "%s %s -> %d self=%d", ha, hb, a.Equal(b), a.Equal(curve.NewRistrettoPoint().Set(a)))
+	c.op("ristretto.IsIdentity", "%v %v", a.IsIdentity(), o.Sub(a, a).IsIdentity())
+	c.op("ristretto.DoubleScalarMulBasepointVartime", "%s %s %s -> %s", hs, ha, hu, c06hr(o.DoubleScalarMulBasepointVartime(s, a, u)))
+	c.op("ristretto.TripleScalarMulBasepointVartime", "%s %s %s %s -> %s", hs, ha, hu, hb, c06hr(o.TripleScalarMulBasepointVartime(s, a, u, b)))
+	var C curve.RistrettoPoint
+	C.DoubleScalarMulBasepointVartime(s, a, u)
+	o.TripleScalarMulBasepointVartime(s, a, u, &C)
+	c.op("ristretto.TripleScalarMulBasepointVartime(balanced)", "-> %s identity=%v", c06hr(&o), o.IsIdentity())
+	vs := make([]*curve.RistrettoPoint, t.W(6))
+	for i := range vs {
+		vs[i] = c.ris()
+	}
+	c.op("ristretto.Sum", "n=%d -> %s", len(vs), c06hr(o.Sum(vs)))
+	ch := t.W(2)
+	o.ConditionalSelect(a, b, ch)
+	c.op("ristretto.ConditionalSelect", "%d -> %s", ch, c06hr(&o))
+	if t.W(3) == 2 {
+		tbl := curve.NewRistrettoBasepointTable(a)
+		c.op("ristretto.MulBasepoint(user table)", "%s * %s -> %s basepoint %s", hs, ha, c06hr(o.MulBasepoint(tbl, s)), c06hr(tbl.Basepoint()))
+	}
+	c.op("ristretto.BasepointTable.Basepoint", "-> %s", c06hr(curve.RISTRETTO_BASEPOINT_TABLE.Basepoint()))
+	ub := c.g.Bytes(64)
+	switch t.W(6) {
+	case 4:
+		for i := range ub {
+			ub[i] = 0xff
+		}
+	case 5:
+		for i := range ub[:32] {
+			ub[i] = 0
+		}
+	}
+	var up curve.RistrettoPoint
+	_, err := up.SetUniformBytes(ub)
+	c.op("ristretto.SetUniformBytes", "%s -> err=%v %s", core.Hex8(ub), err != nil, c06hr(&up))
+	var rp curve.RistrettoPoint
+	_, err = rp.SetRandom(c.rd())
+	c.op("ristretto.SetRandom", "err=%v %s", err != nil, c06hr(&rp))
+}
+
+func (c *c06) famRisMSM() {
+	t := c.t
+	var o curve.RistrettoPoint
+	n := c.msmLen()
+	c.noteLen(n)
+	ss, ps := c.scs(n), c.risMany(n)
+	c.op("ristretto.MultiscalarMulVartime", "n=%d -> %s", n, c06hr(o.MultiscalarMulVartime(ss, ps)))
+	if n > 64 && t.W(4) != 3 {
+		n = c06lenSmall[t.W(len(c06lenSmall))]
+		ss, ps = ss[:n], ps[:n]
+	}
+	c.op("ristretto.MultiscalarMul", "n=%d -> %s", n, c06hr(o.MultiscalarMul(ss, ps)))
+	// expanded variants
+	a, b := c.ris(), c.ris()
+	s, u := c.sc(), c.sc()
+	ea := curve.NewExpandedRistrettoPoint(a)
+	c.op("ristretto.NewExpandedRistrettoPoint", "%s -> point %s set %s", c06hr(a), c06hr(ea.Point()), c06hr(o.SetExpanded(ea)))
+	c.op("ristretto.ExpandedDoubleScalarMulBasepointVartime", "%s %s -> %s", c06hs(s), c06hs(u), c06hr(o.ExpandedDoubleScalarMulBasepointVartime(s, ea, u)))
+	c.op("ristretto.ExpandedTripleScalarMulBasepointVartime", "%s %s %s -> %s", c06hs(s), c06hs(u), c06hr(b), c06hr(o.ExpandedTripleScalarMulBasepointVartime(s, ea, u, b)))
+	var eb curve.ExpandedRistrettoPoint
+	eb.SetRistrettoPoint(b)
+	m := c06lenSmall[t.W(len(c06lenSmall))]
+	if t.W(8) == 7 {
+		m = c.msmLen()
+		c.noteLen(m)
+	}
+	ns := t.W(m + 1)
+	sp := make([]*curve.ExpandedRistrettoPoint, ns)
+	for i := range sp {
+		sp[i] = ea
+		if t.W(2) == 1 {
+			sp[i] = &eb
+		}
+	}
+	c.op("ristretto.ExpandedMultiscalarMulVartime", "static=%d dynamic=%d -> %s", ns, m-ns, c06hr(o.ExpandedMultiscalarMulVartime(c.scs(ns), sp, c.scs(m-ns), c.risMany(m-ns))))
+}
+
+func (c *c06) famRisCodec() {
+	t := c.t
+	a := c.ris()
+	var cr curve.CompressedRistretto
+	cr.SetRistrettoPoint(a)
+	var back curve.RistrettoPoint
+	_, err := back.SetCompressed(&cr)
+	var id curve.CompressedRistretto
+	id.Identity()
+	c.op("ristretto.Compress", "-> %s back err=%v equal=%d isid=%d base=%s", core.Hex8(cr[:]), err != nil, back.Equal(a), cr.Equal(&id), core.Hex8(curve.RISTRETTO_BASEPOINT_COMPRESSED[:]))
+	mb, merr := a.MarshalBinary()
+	var ub curve.RistrettoPoint
+	uerr := ub.UnmarshalBinary(mb)
+	c.op("ristretto.MarshalBinary", "%s err=%v back err=%v %s", core.Hex8(mb), merr != nil, uerr != nil, c06hr(&ub))
+	for i, m := 0, 3+t.W(6); i < m; i++ {
+		var b []byte
+		var tag string
+		switch t.W(4) {
+		case 0: // a valid encoding with one bit flipped
+			b, tag = clone(cr[:]), "bit-flipped"
+			b[t.W(32)] ^= 1 << uint(t.W(8))
+		case 1: // negated s of a valid encoding: p - s (negative => rejected)
+			b, tag = c06negFe(cr[:]), "negated"
+		default:
+			b, tag = c.yPattern()
+		}
+		var c2 curve.CompressedRistretto
+		if _, err := c2.SetBytes(b); err != nil {
+			continue
+		}
+		var p curve.RistrettoPoint
+		if _, err := p.SetCompressed(&c2); err != nil {
+			c.r.Count(c06decRej)
+			c.op("ristretto.Decompress", "%s %s -> err=true", tag, core.Hex8(b))
+			continue
+		}
+		c.r.Count(c06decOK)
+		c.op("ristretto.Decompress", "%s %s -> err=false re=%s", tag, core.Hex8(b), c06hr(&p))
+	}
+}
+
+// c06negFe returns p - x for a 32-byte little-endian x < p (x = 0 stays 0).
+func c06negFe(x []byte) []byte {
+	p := leBytes32(fieldP)
+	out := make([]byte, 32)
+	zero := true
+	for _, v := range x {
+		if v != 0 {
+			zero = false
+		}
+	}
+	if zero {
+		return out
+	}
+	borrow := 0
+	for i := 0; i < 32; i++ {
+		v := int(p[i]) - int(x[i]) - borrow
+		borrow = 0
+		if v < 0 {
+			v += 256
+			borrow = 1
+		}
+		out[i] = byte(v)
+	}
+	return out
+}
+
+// ---- x25519 -------------------------------------------------------------------------
+
+func (c *c06) famX25519() {
+	t := c.t
+	k := c.g.Bytes(32)
+	if t.W(4) == 3 {
+		k = c.scBytes()
+	}
+	var in, base, dst [32]byte
+	copy(in[:], k)
+	// base: random, a pattern, or a low-order point derived from the torsion subgroup
+	lowOrder := false
+	switch t.W(4) {
+	case 0:
+		copy(base[:], c.g.Bytes(32))
+	case 1:
+		b, _ := c.yPattern()
+		copy(base[:], b)
+	case 2:
+		var m curve.MontgomeryPoint
+		m.SetEdwards(curve.EIGHT_TORSION[t.W(8)])
+		copy(base[:], m[:])
+		lowOrder = true
+	default:
+		var m curve.MontgomeryPoint
+		m.SetEdwards(c.ed())
+		copy(base[:], m[:])
+	}
+	x25519.ScalarMult(&dst, &in, &base)
+	c.op("x25519.ScalarMult", "%s %s -> %s", core.Hex8(in[:]), core.Hex8(base[:]), core.Hex8(dst[:]))
+	x25519.ScalarBaseMult(&dst, &in)
+	c.op("x25519.ScalarBaseMult", "%s -> %s", core.Hex8(in[:]), core.Hex8(dst[:]))
+	out, err := x25519.X25519(k, x25519.Basepoint)
+	c.op("x25519.X25519(Basepoint)", "%s -> err=%v %s", core.Hex8(k), err != nil, core.Hex8(out))
+	out, err = x25519.X25519(k, clone(x25519.Basepoint))
+	c.op("x25519.X25519(copy of basepoint)", "%s -> err=%v %s", core.Hex8(k), err != nil, core.Hex8(out))
+	out, err = x25519.X25519(k, base[:])
+	c.op("x25519.X25519", "%s %s loworder=%v -> err=%v %s", core.Hex8(k), core.Hex8(base[:]), lowOrder, err != nil, core.Hex8(out))
+	// always one guaranteed low-order input
+	var m curve.MontgomeryPoint
+	m.SetEdwards(curve.EIGHT_TORSION[t.W(8)])
+	out, err = x25519.X25519(k, m[:])
+	c.op("x25519.X25519(low order)", "%s -> err=%v %s", core.Hex8(m[:]), err != nil, core.Hex8(out))
+	priv := ed25519.NewKeyFromSeed(c.g.Bytes(32))
+	xs := x25519.EdPrivateKeyToX25519(priv)
+	xp, ok := x25519.EdPublicKeyToX25519(ed25519.PublicKey(priv[32:]))
+	xp2, err := x25519.X25519(xs, x25519.Basepoint)
+	c.op("x25519.EdPrivateKeyToX25519", "-> %s", core.Hex8(xs))
+	c.op("x25519.EdPublicKeyToX25519", "-> %v %s derived=%s err=%v", ok, core.Hex8(xp), core.Hex8(xp2), err != nil)
+	bad, _ := c.yPattern()
+	xb, ok := x25519.EdPublicKeyToX25519(ed25519.PublicKey(bad))
+	c.op("x25519.EdPublicKeyToX25519(arbitrary)", "%s -> %v %s", core.Hex8(bad), ok, core.Hex8(xb))
+	pubA, privA, errA := x25519.GenerateKey(c.rd())
+	pubB, privB, errB := x25519.GenerateKey(c.rd())
+	if errA == nil && errB == nil {
+		s1, s2 := privA.DiffieHellman(pubB), privB.DiffieHellman(pubA)
+		c.op("x25519.GenerateKey", "-> %s %s", core.Hex8(pubA[:]), core.Hex8(privA.Public()[:]))
+		c.op("x25519.DiffieHellman", "-> %s %s zero=%v", core.Hex8(s1[:]), core.Hex8(s2[:]), s1.IsZero())
+		var lo x25519.PublicKey
+		copy(lo[:], m[:])
+		s3 := privA.DiffieHellman(&lo)
+		c.op("x25519.DiffieHellman(low order)", "-> %s zero=%v", core.Hex8(s3[:]), s3.IsZero())
+	} else {
+		c.op("x25519.GenerateKey", "-> err")
+	}
+}
+
+// ---- ed25519 ----------------------------------------------------------------------
+
+var c06presetNames = []string{"default", "stdlib", "fips186-5", "zip215"}
+
+func c06preset(i int) *ed25519.VerifyOptions {
+	switch i {
+	case 0:
+		return ed25519.VerifyOptionsDefault
+	case 1:
+		return ed25519.VerifyOptionsStdLib
+	case 2:
+		return ed25519.VerifyOptionsFIPS_186_5
+	default:
+		return ed25519.VerifyOptionsZIP_215
+	}
+}
+
+func c06withPreset(o *ed25519.Options, i int) *ed25519.Options {
+	n := *o
+	n.Verify = c06preset(i)
+	return &n
+}
+
+// buildItems creates this run's signatures: honest ones in every variant, a
+// bit-flipped one, torsion-crafted ones and non-canonical / small-order shapes.
+func (c *c06) buildItems() {
+	if c.items != nil {
+		return
+	}
+	t, g := c.t, c.g
+	seed := g.Bytes(32)
+	priv := ed25519.NewKeyFromSeed(seed)
+	pub := []byte(priv[32:])
+	c.op("ed25519.NewKeyFromSeed", "%s -> %s seed=%s", core.Hex8(seed), core.Hex8(priv), core.Hex8(priv.Seed()))
+	add := func(tag string, pk, msg, sig []byte, o *ed25519.Options) {
+		c.items = append(c.items, c06Item{pk, msg, sig, o, tag})
+	}
+	msg := g.Msg()
+	sig := ed25519.Sign(priv, msg)
+	c.op("ed25519.Sign", "%s -> %s", core.Hex8(msg), core.Hex8(sig))
+	add("pure", pub, msg, sig, &ed25519.Options{})
+
+	ctx := string(g.Bytes(1 + t.W(255)))
+	octx := &ed25519.Options{Context: ctx}
+	s2, err := priv.Sign(c.rd(), msg, octx)
+	c.op("ed25519.Sign(ctx)", "ctxlen=%d -> err=%v %s", len(ctx), err != nil, core.Hex8(s2))
+	if err == nil {
+		add("ctx", pub, msg, s2, octx)
+	}
+	dig := sha512.Sum512(msg)
+	oph := &ed25519.Options{Hash: crypto.SHA512}
+	if t.W(2) == 1 {
+		oph.Context = ctx
+	}
+	s3, err := priv.Sign(c.rd(), dig[:], oph)
+	c.op("ed25519.Sign(ph)", "ctx=%v -> err=%v %s", oph.Context != "", err != nil, core.Hex8(s3))
+	if err == nil {
+		add("ph", pub, dig[:], s3, oph)
+	}
+	s4, err := priv.Sign(c.rd(), msg, &ed25519.Options{AddedRandomness: true})
+	c.op("ed25519.Sign(hedged)", "-> err=%v %s", err != nil, core.Hex8(s4))
+	if err == nil {
+		add("hedged", pub, msg, s4, &ed25519.Options{})
+	}
+	s5, err := priv.Sign(c.rd(), msg, &ed25519.Options{SelfVerify: true, AddedRandomness: t.W(2) == 1})
+	c.op("ed25519.Sign(selfverify)", "-> err=%v %s", err != nil, core.Hex8(s5))
+	// wrong-length ph message: an error on every backend
+	_, err = priv.Sign(c.rd(), msg[:len(msg)/2], oph)
+	c.op("ed25519.Sign(ph, bad digest length)", "-> err=%v", err != nil)
+
+	// bit-flipped
+	fl := clone(sig)
+	fl[t.W(64)] ^= 1 << uint(t.W(8))
+	add("bit-flipped", pub, msg, fl, &ed25519.Options{})
+	// wrong message
+	add("wrong-message", pub, append(clone(msg), 1), sig, &ed25519.Options{})
+	// S + L (non-canonical S)
+	sl := clone(sig)
+	if addL(sl[32:]) {
+		add("S+L", pub, msg, sl, &ed25519.Options{})
+	}
+	// torsion-crafted: torsion on A and/or R, optional delta on S
+	for i, n := 0, 1+t.W(3); i < n; i++ {
+		tA, tR := t.W(8), t.W(8)
+		delta := int64(0)
+		if t.W(4) == 3 {
+			delta = int64(t.W(5)) - 2
+		}
+		pk, cs := craftSig(g, seed, tA, tR, delta, nil, msg)
+		add(fmt.Sprintf("crafted(tA=%d,tR=%d,d=%d)", tA, tR, delta), pk, msg, cs, &ed25519.Options{})
+	}
+	if t.W(2) == 1 {
+		tA, tR := t.W(8), t.W(8)
+		pk, cs := craftSig(g, seed, tA, tR, 0, makeDom2(false, ctx), msg)
+		add(fmt.Sprintf("crafted-ctx(tA=%d,tR=%d)", tA, tR), pk, msg, cs, octx)
+	}
+	// small-order A and R, S = 0: satisfies the cofactored equation for every message
+	so := make([]byte, 64)
+	var A []byte
+	if nc := c06smallNonCanonical(); len(nc) > 0 && t.W(2) == 1 {
+		A = clone(nc[t.W(len(nc))]) // non-canonical encoding of a small-order point
+	} else {
+		A = edBytes(curve.EIGHT_TORSION[t.W(8)])
+	}
+	if len(nonCanonicalPoints) > 0 && t.W(3) == 2 {
+		copy(so, nonCanonicalPoints[t.W(len(nonCanonicalPoints))])
+	} else {
+		copy(so, edBytes(curve.EIGHT_TORSION[t.W(8)]))
+	}
+	add("small-order", A, msg, so, &ed25519.Options{})
+	// arbitrary bytes as key and signature
+	junkPk, _ := c.yPattern()
+	junk := g.Bytes(64)
+	junk[63] &= 0x0f
+	add("junk", junkPk, msg, junk, &ed25519.Options{})
+	for i, it := range c.items {
+		c.op("ed25519.item", "%d %s pk=%s msg=%s sig=%s", i, it.tag, core.Hex8(it.pk), core.Hex8(it.msg), core.Hex8(it.sig))
+	}
+}
+
+var c06ncSmall [][]byte
+
+// c06smallNonCanonical: the non-canonical encodings that decode to small-order
+// points (accepted as A and R only by the ZIP-215 preset).
+func c06smallNonCanonical() [][]byte {
+	if c06ncSmall == nil {
+		c06ncSmall = [][]byte{}
+		for _, b := range nonCanonicalPoints {
+			var p curve.EdwardsPoint
+			if p.UnmarshalBinary(b) == nil && p.IsSmallOrder() {
+				c06ncSmall = append(c06ncSmall, b)
+			}
+		}
+	}
+	return c06ncSmall
+}
+
+func (c *c06) countVer(ok bool) {
+	if ok {
+		c.r.Count(c06verAcc)
+	} else {
+		c.r.Count(c06verRej)
+	}
+}
+
+func (c *c06) famEd25519() {
+	t := c.t
+	c.buildItems()
+	// every item under every preset (the first item always; the others as the tape picks)
+	for i, it := range c.items {
+		if i > 0 && t.W(2) == 0 {
+			continue
+		}
+		res := make([]bool, 4)
+		for p := 0; p < 4; p++ {
+			res[p] = ed25519.VerifyWithOptions(it.pk, it.msg, it.sig, c06withPreset(it.opts, p))
+			c.countVer(res[p])
+		}
+		c.op("ed25519.VerifyWithOptions", "%s default/stdlib/fips/zip215 -> %s", it.tag, c06bits(res))
+	}
+	it := c.items[0]
+	c.op("ed25519.Verify", "-> %v", ed25519.Verify(it.pk, it.msg, it.sig))
+	// expanded keys
+	for i, it := range c.items {
+		if i > 0 && t.W(4) != 3 {
+			continue
+		}
+		ek, err := ed25519.NewExpandedPublicKey(it.pk)
+		if err != nil {
+			c.op("ed25519.NewExpandedPublicKey", "%s -> err=true", it.tag)
+			continue
+		}
+		cy := ek.CompressedY()
+		res := make([]bool, 4)
+		for p := 0; p < 4; p++ {
+			res[p] = ed25519.VerifyExpandedWithOptions(ek, it.msg, it.sig, c06withPreset(it.opts, p))
+			c.countVer(res[p])
+		}
+		c.op("ed25519.NewExpandedPublicKey", "%s -> err=false %s", it.tag, core.Hex8(cy[:]))
+		c.op("ed25519.VerifyExpandedWithOptions", "%s -> %s", it.tag, c06bits(res))
+	}
+	ek, err := ed25519.NewExpandedPublicKey(it.pk)
+	if err == nil {
+		c.op("ed25519.VerifyExpanded", "-> %v", ed25519.VerifyExpanded(ek, it.msg, it.sig))
+	}
+	pub2, priv2, err := ed25519.GenerateKey(c.rd())
+	c.op("ed25519.GenerateKey", "err=%v %s %s", err != nil, core.Hex8(pub2), core.Hex8(priv2))
+}
+
+func (c *c06) famEdBatch() {
+	t := c.t
+	c.buildItems()
+	n := 1 + t.W(8)
+	switch t.W(32) {
+	case 31:
+		n = 190 + t.W(10)
+	case 30, 29:
+		n = 96 + t.W(10)
+	}
+	if n >= 96 {
+		c.r.Count(c06bigBatch)
+	}
+	// honest-only batches take the fast path; mixed ones fall back to per-entry verification
+	honestOnly := t.W(2) == 1
+	var honest []int
+	for i, it := range c.items {
+		switch it.tag {
+		case "pure", "ctx", "ph", "hedged":
+			honest = append(honest, i)
+		}
+	}
+	v := ed25519.NewBatchVerifier()
+	if t.W(4) == 3 {
+		v = ed25519.NewBatchVerifierWithCapacity(n)
+	}
+	if t.W(4) == 3 {
+		v.ForceNoPublicKeyExpansion()
+	}
+	exp := make([]*ed25519.ExpandedPublicKey, len(c.items))
+	preset := []int{0, 2, 3}[t.W(3)]
+	var desc []byte
+	for i := 0; i < n; i++ {
+		k := t.W(len(c.items))
+		if honestOnly {
+			k = honest[t.W(len(honest))]
+		}
+		it := c.items[k]
+		p := preset
+		if !honestOnly && t.W(8) == 7 {
+			p = t.W(4) // occasionally a different preset, incl. the batch-incompatible stdlib one
+		}
+		o := c06withPreset(it.opts, p)
+		mode := t.W(3)
+		if mode == 2 {
+			if exp[k] == nil {
+				exp[k], _ = ed25519.NewExpandedPublicKey(it.pk)
+			}
+			if exp[k] == nil {
+				mode = 0
+			}
+		}
+		switch mode {
+		case 2:
+			v.AddExpandedWithOptions(exp[k], it.msg, it.sig, o)
+		case 1:
+			if p == 0 {
+				v.Add(it.pk, it.msg, it.sig)
+				if it.opts.Context != "" || it.opts.Hash != crypto.Hash(0) {
+					// Add() means default options: the entry is then simply a different claim
+					desc = append(desc, 0xff)
+				}
+			} else {
+				v.AddWithOptions(it.pk, it.msg, it.sig, o)
+			}
+		default:
+			v.AddWithOptions(it.pk, it.msg, it.sig, o)
+		}
+		desc = append(desc, byte(k), byte(p), byte(mode))
+	}
+	only := v.VerifyBatchOnly(c.rd())
+	ok, res := v.Verify(c.rd())
+	for _, b := range res {
+		c.countVer(b)
+	}
+	c.op("ed25519.BatchVerifier.VerifyBatchOnly", "n=%d entries=%s -> %v", n, core.Hex8(desc), only)
+	c.op("ed25519.BatchVerifier.Verify", "n=%d honest=%v -> %v %s", n, honestOnly, ok, c06bits(res))
+	v.Reset()
+	it := c.items[honest[0]]
+	v.AddWithOptions(it.pk, it.msg, it.sig, c06withPreset(it.opts, 0))
+	ok, res = v.Verify(c.rd())
+	c.op("ed25519.BatchVerifier.Reset+Verify", "-> %v %s", ok, c06bits(res))
+	ok, res = ed25519.NewBatchVerifier().Verify(c.rd())
+	c.op("ed25519.BatchVerifier.Verify(empty)", "-> %v %d", ok, len(res))
+}
+
+// ---- ecvrf ------------------------------------------------------------------------
+
+func (c *c06) famECVRF() {
+	t, g := c.t, c.g
+	priv := g.EdKey()
+	pub := ed25519.PublicKey(priv[32:])
+	alpha := g.Msg()
+	pi := ecvrf.Prove(priv, alpha)
+	c.op("ecvrf.Prove", "%s -> %s", core.Hex8(alpha), core.Hex8(pi))
+	ok, beta := ecvrf.Verify(pub, pi, alpha)
+	c.op("ecvrf.Verify", "-> %v %s", ok, core.Hex8(beta))
+	h, err := ecvrf.ProofToHash(pi)
+	c.op("ecvrf.ProofToHash", "-> err=%v %s", err != nil, core.Hex8(h))
+	pi10 := ecvrf.Prove_v10(priv, alpha)
+	c.op("ecvrf.Prove_v10", "-> %s", core.Hex8(pi10))
+	ok, beta = ecvrf.Verify_v10(pub, pi10, alpha)
+	ok2, _ := ecvrf.Verify(pub, pi10, alpha)
+	c.op("ecvrf.Verify_v10", "-> %v %s cross=%v", ok, core.Hex8(beta), ok2)
+	switch t.W(3) {
+	case 0:
+		pr, err := ecvrf.ProveWithAddedRandomness(c.rd(), priv, alpha)
+		c.op("ecvrf.ProveWithAddedRandomness", "-> err=%v %s", err != nil, core.Hex8(pr))
+		if err == nil {
+			ok, beta = ecvrf.Verify(pub, pr, alpha)
+			c.op("ecvrf.Verify(hedged proof)", "-> %v %s", ok, core.Hex8(beta))
+		}
+	case 1:
+		pr, err := ecvrf.ProveWithAddedRandomness_v10(c.rd(), priv, alpha)
+		c.op("ecvrf.ProveWithAddedRandomness_v10", "-> err=%v %s", err != nil, core.Hex8(pr))
+	default:
+		pr, err := ecvrf.ProveWithAddedRandomness(c.rd(), priv, alpha)
+		c.op("ecvrf.ProveWithAddedRandomness", "-> err=%v %s", err != nil, core.Hex8(pr))
+	}
+	// altered proof / alpha / key
+	bad := clone(pi)
+	bad[t.W(len(bad))] ^= 1 << uint(t.W(8))
+	ok, beta = ecvrf.Verify(pub, bad, alpha)
+	h, err = ecvrf.ProofToHash(bad)
+	c.op("ecvrf.Verify(altered proof)", "-> %v %s; ProofToHash err=%v %s", ok, core.Hex8(beta), err != nil, core.Hex8(h))
+	if t.W(2) == 1 {
+		ok, beta = ecvrf.Verify(pub, pi, append(clone(alpha), 0))
+		c.op("ecvrf.Verify(altered alpha)", "-> %v %s", ok, core.Hex8(beta))
+	} else {
+		pk, _ := c.yPattern()
+		if t.W(2) == 1 {
+			pk = edBytes(curve.EIGHT_TORSION[t.W(8)])
+		}
+		ok, beta = ecvrf.Verify(pk, pi, alpha)
+		c.op("ecvrf.Verify(arbitrary key)", "%s -> %v %s", core.Hex8(pk), ok, core.Hex8(beta))
+	}
+}
+
+// ---- h2c --------------------------------------------------------------------------
+
+var (
+	c06outLens = []int{1, 32, 48, 255, 256}
+	c06dstLens = []int{1, 16, 43, 254, 255, 256, 300}
+)
+
+func (c *c06) dst() []byte {
+	t := c.t
+	return c.g.Bytes(c06dstLens[t.W(len(c06dstLens))])
+}
+
+func c06edOrErr(p *curve.EdwardsPoint, err error) string {
+	if err != nil || p == nil {
+		return "err=true"
+	}
+	return "err=false " + c06he(p)
+}
+
+func c06risOrErr(p *curve.RistrettoPoint, err error) string {
+	if err != nil || p == nil {
+		return "err=true"
+	}
+	return "err=false " + c06hr(p)
+}
+
+func (c *c06) famH2C() {
+	t, g := c.t, c.g
+	msg := g.Msg()
+	// expand_message_xmd / xof: one fixed pair each run, more as the tape picks
+	for i, n := 0, 1+t.W(3); i < n; i++ {
+		hf, name := crypto.SHA512, "sha512"
+		if (i == 0) != (t.W(2) == 1) {
+			hf, name = crypto.SHA256, "sha256"
+		}
+		l := c06outLens[t.W(len(c06outLens))]
+		if t.W(16) == 15 {
+			l = []int{0, 8160, 8161, 16320, 16321}[t.W(5)]
+		}
+		d := c.dst()
+		out := make([]byte, l)
+		err := h2c.ExpandMessageXMD(out, hf, d, msg)
+		c.op("h2c.ExpandMessageXMD("+name+")", "out=%d dst=%d msg=%s -> err=%v %s", l, len(d), core.Hex8(msg), err != nil, core.Hex8(out))
+	}
+	for i, n := 0, 1+t.W(3); i < n; i++ {
+		var x sha3.ShakeHash
+		name := "shake128"
+		if (i == 0) != (t.W(2) == 1) {
+			x, name = sha3.NewShake256(), "shake256"
+		} else {
+			x = sha3.NewShake128()
+		}
+		if t.W(4) == 3 {
+			x.Write([]byte("caller data that must be ignored")) // the library clones and resets
+		}
+		l := c06outLens[t.W(len(c06outLens))]
+		d := c.dst()
+		out := make([]byte, l)
+		err := h2c.ExpandMessageXOF(out, x, d, msg)
+		c.op("h2c.ExpandMessageXOF("+name+")", "out=%d dst=%d -> err=%v %s", l, len(d), err != nil, core.Hex8(out))
+	}
+	d := c.dst()
+	c.op("h2c.Edwards25519_XMD_SHA512_ELL2_RO", "dst=%d -> %s", len(d), c06edOrErr(h2c.Edwards25519_XMD_SHA512_ELL2_RO(d, msg)))
+	c.op("h2c.Edwards25519_XMD_SHA512_ELL2_NU", "dst=%d -> %s", len(d), c06edOrErr(h2c.Edwards25519_XMD_SHA512_ELL2_NU(d, msg)))
+	c.op("h2c.Ristretto255_XMD_R255MAP_RO(sha512)", "dst=%d -> %s", len(d), c06risOrErr(h2c.Ristretto255_XMD_R255MAP_RO(crypto.SHA512, d, msg)))
+	c.op("h2c.Ristretto255_XOF_R255MAP_RO(shake256)", "dst=%d -> %s", len(d), c06risOrErr(h2c.Ristretto255_XOF_R255MAP_RO(sha3.NewShake256(), d, msg)))
+	for i, n := 0, 1+t.W(3); i < n; i++ {
+		d := c.dst()
+		m := g.Msg()
+		switch t.W(6) {
+		case 0:
+			c.op("h2c.Edwards25519_XMD_ELL2_RO(sha256)", "dst=%d -> %s", len(d), c06edOrErr(h2c.Edwards25519_XMD_ELL2_RO(crypto.SHA256, d, m)))
+		case 1:
+			c.op("h2c.Edwards25519_XMD_ELL2_NU(sha256)", "dst=%d -> %s", len(d), c06edOrErr(h2c.Edwards25519_XMD_ELL2_NU(crypto.SHA256, d, m)))
+		case 2:
+			c.op("h2c.Edwards25519_XOF_ELL2_RO(shake128)", "dst=%d -> %s", len(d), c06edOrErr(h2c.Edwards25519_XOF_ELL2_RO(sha3.NewShake128(), d, m)))
+		case 3:
+			c.op("h2c.Edwards25519_XOF_ELL2_NU(shake256)", "dst=%d -> %s", len(d), c06edOrErr(h2c.Edwards25519_XOF_ELL2_NU(sha3.NewShake256(), d, m)))
+		case 4:
+			c.op("h2c.Ristretto255_XMD_R255MAP_RO(sha256)", "dst=%d -> %s", len(d), c06risOrErr(h2c.Ristretto255_XMD_R255MAP_RO(crypto.SHA256, d, m)))
+		default:
+			c.op("h2c.Ristretto255_XOF_R255MAP_RO(shake128)", "dst=%d -> %s", len(d), c06risOrErr(h2c.Ristretto255_XOF_R255MAP_RO(sha3.NewShake128(), d, m)))
+		}
+	}
+}
+
+// ---- merlin -----------------------------------------------------------------------
+
+var c06merlinLens = []int{0, 1, 32, 64, 165, 166, 167, 168, 200, 331, 332, 333, 400}
+
+func (c *c06) mlen() int { return c06merlinLens[c.t.W(len(c06merlinLens))] }
+
+func (c *c06) famMerlin() {
+	t, g := c.t, c.g
+	tr := merlin.NewTranscript(string(g.Bytes(1 + t.W(20))))
+	c.op("merlin.NewTranscript", "")
+	var cl *merlin.Transcript
+	for i, n := 0, 3+t.W(6); i < n; i++ {
+		lbl := string(g.Bytes(1 + t.W(12)))
+		switch t.W(4) {
+		case 0, 1:
+			m := g.Bytes(c.mlen())
+			tr.AppendMessage(lbl, m)
+			c.op("merlin.AppendMessage", "%s %s", core.Hex8([]byte(lbl)), core.Hex8(m))
+		case 2:
+			out := make([]byte, c.mlen())
+			tr.ExtractBytes(out, lbl)
+			c.op("merlin.ExtractBytes", "%s %d -> %s", core.Hex8([]byte(lbl)), len(out), core.Hex8(out))
+		default:
+			cl = tr.Clone()
+			tr.AppendMessage("after-clone", []byte{byte(i)})
+			c.op("merlin.Clone", "")
+		}
+	}
+	out := make([]byte, 1+c.mlen())
+	tr.ExtractBytes(out, "final")
+	c.op("merlin.ExtractBytes", "final %d -> %s", len(out), core.Hex8(out))
+	if cl == nil {
+		cl = tr.Clone()
+		c.op("merlin.Clone", "")
+	}
+	o2 := make([]byte, 64)
+	cl.ExtractBytes(o2, "final")
+	c.op("merlin.ExtractBytes(clone)", "-> %s", core.Hex8(o2))
+	rb := tr.BuildRng()
+	c.op("merlin.BuildRng", "")
+	for i, n := 0, 1+t.W(3); i < n; i++ {
+		w := g.Bytes(c.mlen())
+		rb.RekeyWithWitnessBytes("witness", w)
+		c.op("merlin.RekeyWithWitnessBytes", "%s", core.Hex8(w))
+	}
+	rng, err := rb.Finalize(c.rd())
+	if err != nil {
+		c.op("merlin.Finalize", "err=true")
+		return
+	}
+	c.op("merlin.Finalize", "err=false")
+	for i, n := 0, 1+t.W(3); i < n; i++ {
+		buf := make([]byte, c.mlen())
+		m, err := rng.Read(buf)
+		c.op("merlin.Rng.Read", "%d -> %d err=%v %s", len(buf), m, err != nil, core.Hex8(buf))
+	}
+}
+
+// ---- sr25519 ----------------------------------------------------------------------
+
+func (c *c06) famSr25519() {
+	t, g := c.t, c.g
+	msk, err := sr25519.NewMiniSecretKeyFromBytes(g.Bytes(32))
+	if err != nil {
+		c.op("sr25519.NewMiniSecretKeyFromBytes", "err=true")
+		return
+	}
+	skU, skE := msk.ExpandUniform(), msk.ExpandEd25519()
+	bU, errU := skU.MarshalBinary()
+	bE, errE := skE.MarshalBinary()
+	c.op("sr25519.MiniSecretKey.ExpandUniform", "-> err=%v %s", errU != nil, core.Hex8(bU))
+	c.op("sr25519.MiniSecretKey.ExpandEd25519", "-> err=%v %s", errE != nil, core.Hex8(bE))
+	sk := skU
+	if t.W(2) == 1 {
+		sk = skE
+	}
+	kp := sk.KeyPair()
+	pk := kp.PublicKey()
+	pkb, err := pk.MarshalBinary()
+	c.op("sr25519.SecretKey.PublicKey", "-> err=%v %s", err != nil, core.Hex8(pkb))
+	kpb, err := kp.MarshalBinary()
+	kp2, err2 := sr25519.NewKeyPairFromBytes(kpb)
+	c.op("sr25519.KeyPair.MarshalBinary", "-> err=%v %s back err=%v same=%v", err != nil, core.Hex8(kpb), err2 != nil, err2 == nil && kp2.PublicKey().Equal(pk))
+	pk2, err := sr25519.NewPublicKeyFromBytes(pkb)
+	c.op("sr25519.NewPublicKeyFromBytes", "-> err=%v equal=%v", err != nil, err == nil && pk2.Equal(pk))
+	junk, _ := c.yPattern()
+	_, err = sr25519.NewPublicKeyFromBytes(junk)
+	c.op("sr25519.NewPublicKeyFromBytes(arbitrary)", "%s -> err=%v", core.Hex8(junk), err != nil)
+	// ed25519-expanded secret key import
+	h := sha512.Sum512(g.Bytes(32))
+	h[0] &= 248
+	h[31] &= 63
+	h[31] |= 64
+	ske, err := sr25519.NewSecretKeyFromEd25519Bytes(h[:])
+	if err == nil {
+		b, _ := ske.MarshalBinary()
+		pb, _ := ske.PublicKey().MarshalBinary()
+		c.op("sr25519.NewSecretKeyFromEd25519Bytes", "-> err=false %s %s", core.Hex8(b), core.Hex8(pb))
+	} else {
+		c.op("sr25519.NewSecretKeyFromEd25519Bytes", "-> err=true")
+	}
+
+	ctx := sr25519.NewSigningContext(g.Bytes(t.W(40)))
+	msg := g.Msg()
+	kinds := []string{"bytes", "hash-sha512", "hash-sha3-256", "xof-shake128"}
+	mk := func(kind int, m []byte) *sr25519.SigningTranscript {
+		switch kind {
+		case 0:
+			return ctx.NewTranscriptBytes(m)
+		case 1:
+			hh := sha512.New()
+			hh.Write(m)
+			return ctx.NewTranscriptHash(hh)
+		case 2:
+			hh := sha3.New256()
+			hh.Write(m)
+			return ctx.NewTranscriptHash(hh)
+		default:
+			x := sha3.NewShake128()
+			x.Write(m)
+			return ctx.NewTranscriptXOF(x)
+		}
+	}
+	type ent struct {
+		kind int
+		msg  []byte
+		sig  *sr25519.Signature
+		good bool
+	}
+	var ents []ent
+	first := t.W(4)
+	for k := 0; k < 4; k++ {
+		if k != first && t.W(2) == 0 {
+			continue
+		}
+		sig, err := kp.Sign(c.rd(), mk(k, msg))
+		if err != nil {
+			c.op("sr25519.Sign("+kinds[k]+")", "-> err=true")
+			continue
+		}
+		sb, err := sig.MarshalBinary()
+		c.op("sr25519.Sign("+kinds[k]+")", "%s -> err=%v %s", core.Hex8(msg), err != nil, core.Hex8(sb))
+		ok := pk.Verify(mk(k, msg), sig)
+		c.countVer(ok)
+		bad := pk.Verify(mk(k, append(clone(msg), 0)), sig)
+		c.countVer(bad)
+		cross := pk.Verify(mk((k+1)%4, msg), sig)
+		c.op("sr25519.Verify("+kinds[k]+")", "-> %v altered-message=%v other-transcript-kind=%v", ok, bad, cross)
+		ents = append(ents, ent{k, msg, sig, ok})
+		// altered signature bytes
+		fl := clone(sb)
+		fl[t.W(64)] ^= 1 << uint(t.W(8))
+		s2, err := sr25519.NewSignatureFromBytes(fl)
+		if err != nil {
+			c.op("sr25519.NewSignatureFromBytes(altered)", "-> err=true")
+		} else {
+			ok := pk.Verify(mk(k, msg), s2)
+			c.countVer(ok)
+			c.op("sr25519.NewSignatureFromBytes(altered)", "-> err=false verify=%v", ok)
+			if t.W(2) == 1 {
+				ents = append(ents, ent{k, msg, s2, ok})
+			}
+		}
+	}
+	if len(ents) == 0 {
+		return
+	}
+	// batch
+	n := 1 + t.W(8)
+	if t.W(32) == 31 {
+		n = 64 + t.W(40)
+		c.r.Count(c06bigBatch)
+	}
+	honestOnly := t.W(2) == 1
+	v := sr25519.NewBatchVerifier()
+	var desc []byte
+	for i := 0; i < n; i++ {
+		k := t.W(len(ents))
+		e := ents[k]
+		if honestOnly {
+			for j := 0; j < len(ents) && !e.good; j++ {
+				k = (k + 1) % len(ents)
+				e = ents[k]
+			}
+		}
+		v.Add(pk, mk(e.kind, e.msg), e.sig)
+		desc = append(desc, byte(k))
+	}
+	only := v.VerifyBatchOnly(c.rd())
+	ok, res := v.Verify(c.rd())
+	c.op("sr25519.BatchVerifier.VerifyBatchOnly", "n=%d entries=%s -> %v", n, core.Hex8(desc), only)
+	c.op("sr25519.BatchVerifier.Verify", "n=%d -> %v %s", n, ok, c06bits(res))
+	ok, res = sr25519.NewBatchVerifier().Verify(c.rd())
+	c.op("sr25519.BatchVerifier.Verify(empty)", "-> %v %d", ok, len(res))
 }
